@@ -132,6 +132,32 @@ add("C19", "exploration",
 
 NOT_YET = "check not built yet (work in progress in this round)"
 
+# additions of the mutation round (appended to the technique text; DESIGN.md section 5 "Added in the mutation round")
+EXTRA = {
+    "C01": "; synthetic sources also with shared inodes and no device id; a second restore over a partly damaged copy",
+    "C02": "; removals also judged against the harness's own observation of when a pack became marked; repositories aged beyond keep-delete; second prune inside the keep-delete window; complete recover scenario; compression/pack-size changes mid-history",
+    "C03": "; early-delete-index without instant-delete; originals must not be gone before their replacement is stored (rewrite+forget, merge+delete)",
+    "C04": "; passwords with blanks through password files and commands; a tampered snapshot must not vanish from a listing silently",
+    "C05": "; trust_cache variation; stream-like snapshots (size 0 with content); the documented id-subset rotation must report damaged packs",
+    "C07": "; hook H6 cuts runs into several index files",
+    "C08": "; packs mixing compressed and uncompressed records",
+    "C09": "; probe that a snapshot's own mark decides even with delete-unchanged",
+    "C10": "; idle prune against a backup in progress; in-process rayon steal cycles are broken by opening the gate",
+    "C11": "; ctime-only changes (synthetic and on disk), older mtimes, parents that lost data or tree packs",
+    "C12": "; identical subtrees under two paths, directory-only globs, re-copy into a destination that forgot snapshots and quick-pruned, repair keeps what is healthy",
+    "C13": "; hook H6 varied per run; very wide trees; no pack outside the index after prune",
+    "C14": "; names ordering before '/', hostile names hidden behind escapes, sub-second mtime differences",
+    "C15": "; dry runs judged after the storage is quiet; unindexed packs on append-only repositories",
+    "C16": "; marked packs before hot-store repair; restore into a partly filled destination; repair_index with unindexed packs on a rejecting cold store",
+    "C17": "; real repositories with marked and lost packs through all four index constructors",
+    "C18": "; chained partial config changes",
+    "C19": "; truncated and oversized foreign cached packs",
+    "C20": "; writes made to fail at the temporary path, empty parts (local backend), sibling directories sharing a type directory's name prefix",
+}
+for _k, _v in EXTRA.items():
+    if _k in CHECKS:
+        CHECKS[_k]["technique"] += _v
+
 def main():
     hooks_commits = subprocess.run(["git", "-C", "/repo", "log", "--format=%h %s", "--grep=^verif-hooks"],
                                    capture_output=True, text=True).stdout.strip().splitlines()
